@@ -1,0 +1,14 @@
+//go:build verif
+
+package gcsemu
+
+// Verification hooks (build tag "verif" only; see /verif/DESIGN.md section 4.2).
+
+// VerifHook, when set, is called at every instrumented point.
+var VerifHook func(point string, kv ...interface{})
+
+func verifPoint(point string, kv ...interface{}) {
+	if h := VerifHook; h != nil {
+		h(point, kv...)
+	}
+}
